@@ -66,6 +66,8 @@ STM = {
     'KRN': ("c15.known.c = [1, {'k': (@unkref2(),)}]", 'bind', 'c15.known', {'c': [1, {'k': (P('unkref2', True),)}]},
             ['unkref2']),
     'KRK': ("c15.known.b = @c15.g()", 'bind', 'c15.known', {'b': ('REF', 'c15.g', True)}, []),
+    'KRKS': ("c15.known.c = [@a/b/c15.g(), @a/c15.g, (@x/y/z/c15.g(),)]", 'bind', 'c15.known',
+             {'c': [('REF', 'c15.g', True), ('REF', 'c15.g', False), (('REF', 'c15.g', True),)]}, []),
     'M': ("mac = @unkref()", 'macro', 'mac', {'value': P('unkref', True)}, ['unkref']),
     'IP': ("import json", 'import', 'json', None, []),
     'IM': ("import no_such_mod_c15", 'import_missing', 'no_such_mod_c15', None, []),
@@ -211,7 +213,8 @@ def run_case(keys, sname, res):
     res.w('set_form')
   if isinstance(skip, tuple) and dropped:
     res.w('tuple_form')
-  if any(v == ('REF', 'c15.g', True) for d in config.values() for v in d.values()):
+  if any(v == ('REF', 'c15.g', True) or (isinstance(v, list) and ('REF', 'c15.g', True) in v)
+         for d in config.values() for v in d.values()):
     res.w('known_reference_stays_real')
   ph = any(has_placeholder(v) for d in config.values() for v in d.values())
   if ph:
